@@ -590,6 +590,11 @@ def execute(plan, run):
             run.probe('default_timestamp')
             step = dict(step, t=int(reads[0]) if reads else 0)
         mdl = model(out, created, keys, items, step['t'], reads, step['thr'], sf=sf)
+        if step.get('default_t'):
+            # any read of this call may be the one the default timestamp was taken from
+            for c in sorted({int(r) for r in reads}):
+                if model(out, created, keys, items, c, reads, step['thr'], sf=sf) != mdl:
+                    mdl = EITHER
         if (step.get('suffix') or clock_failed) and mdl == ACCEPT:
             mdl = EITHER        # soundness only (see oracle.SUFFIXES)
         t = step['t']
@@ -617,7 +622,8 @@ def execute(plan, run):
             lk.startswith('ptlc') and step['wkind'] == 'ptlc_refund')
         tiny = lk.endswith('shake') and out['hash_size'] < 16
         if native and not cor and not tiny and not step.get('suffix') and not clock_failed and \
-                not step.get('tx_change') and not step.get('prehash'):
+                not step.get('tx_change') and not step.get('prehash') and \
+                not (step.get('default_t') and len({int(r) for r in reads}) > 1):
             who = step['actor']
             flag_ok = (int(step['flag'], 16) & ~int(out['allowed'], 16) & 0xff) == 0
             if lk.startswith('htlc'):
